@@ -31,8 +31,8 @@ CHECKS = {
         text="InvEnforce (strategy limit = max(1, estimate), every registered bin = Share(limit, fraction)) is checked by TLC in every state of the contract graph and after every call of the recorded histories, with estimate trajectories containing 0, negative and repeated values, for the simple, precise, lookup and predicate strategies; the Partition graph (SetLimit / add / remove) is replayed exhaustively for the share half.",
         ref="5 C05", note=LIM_NOTE),
     "C09": dict(
-        technique="deterministic TLA+ contract of the window fold and close rule (spec/Limiter.tla) explored exhaustively by TLC with the real minimum window size; every transition replayed on a real DefaultLimiter on a virtual clock with a recording limit algorithm; random histories validated by TLC (LimiterTrace)",
-        text="The exact sequence of OnSample(rtt, inflight, drop) calls the algorithm must receive is a function of the history of acquires, clock advances and completions; TLC enumerates the contract's state graph (12.5k-150k transitions) and the harness takes every transition on the real limiter comparing the samples delivered, and 150-1500 random histories (every drop position, ignores, sub-threshold and zero-duration successes) are validated in the other direction.",
+        technique="deterministic TLA+ contract of the window fold and close rule (spec/Limiter.tla) explored exhaustively by TLC with the real minimum window size; every transition replayed on a real DefaultLimiter on a virtual clock with a recording limit algorithm; random histories (including bursts of concurrent completions) validated by TLC (LimiterTrace); implementation-shaped model of concurrent completions (spec/WindowConc.tla: fold and update as separate critical sections) checked by TLC and replayed edge by edge on the real limiter through the schedule point default.afterFold",
+        text="The exact sequence of OnSample(rtt, inflight, drop) calls the algorithm must receive is a function of the history of acquires, clock advances and completions; TLC enumerates the contract's state graph (12.5k-150k transitions) and the harness takes every transition on the real limiter comparing the samples delivered, and 150-1500 random histories (every drop position, ignores, sub-threshold and zero-duration successes) are validated in the other direction. Under concurrency TLC checks on WindowConc that every folded completion is handed over exactly once (NoLoss, SeenOnce, OnlyReady, DropExact; the snapshot design as delivered violates them) and the real limiter is taken through every interleaving of three completions.",
         ref="5 C09", note=LIM_NOTE),
     "C03": dict(
         technique="TLA+ contract (spec/Partition.tla) checked by TLC; every transition of the TLC state graph replayed on the real strategies; recorded random histories validated against the contract by TLC (PartitionTrace)",
